@@ -389,6 +389,10 @@ def check(plan: Dict[str, Any], execution: Dict[str, Any], props: Optional[Set[s
             elif kind == "write_trace":
                 src = ws.files.get(o["src"])
                 for name, info in obs["files"].items():
+                    if name != o["dst"]:
+                        # some other file changed while this operation ran (an abandoned writer of an earlier,
+                        # failed operation being finalised): not this operation's output
+                        continue
                     if ws.files.get(name, {}).get("torn_in_session") == si:
                         # the writer object of the failed attempt is still alive in this interpreter and is
                         # finalised at some later moment (it then flushes into the file, whatever has been
@@ -422,6 +426,8 @@ def check(plan: Dict[str, Any], execution: Dict[str, Any], props: Optional[Set[s
                         res.violate("C20", "rank-not-recorded/update_rank",
                                     {"file": o["path"], "rank": o["rank"], "had_distributedInfo": isinstance(di, dict)}, si, r["i"])
                 for name, info in obs["files"].items():
+                    if name != o["path"]:
+                        continue
                     fmt = "gz" if name.endswith(".gz") else "json"
                     if not info.get("valid"):
                         res.violate("C20", f"written-file-not-a-trace/update_rank/{fmt}", {"file": name}, si, r["i"])
